@@ -6,9 +6,18 @@ Exploration (small-scope exhaustive, round-trip oracle on the implementation its
    Texts = every sequence of <= N lines over {a, b, c, empty line}, with and without trailing newline, and the
    empty text; an extended alphabet adds lines that look like patch syntax (`-x`, `+x`, `@x`, `\\x`) and lines
    containing characters str.splitlines() also splits on (`\\r`, form feed).
+ * long texts: texts of 12 / 25 / 102 / 1002 lines (line numbers and hunk lengths of 2, 3 and 4 digits in the hunk
+   headers), all-distinct lines and a 3-periodic line pattern, against every edit of one range of lines or of two
+   separate lines, every trailing-newline combination.
  * protocol level: every ordered pair (A, B) of protocols with 0..2 (thorough: 0..3) files over a few texts:
    A.patch(A.diff(B, ctx)) must have exactly B's files.  Protocol.patch is additionally driven with a patch
    protocol assembled by hand from make_patch, so that it is judged even where Protocol.diff fails.
+ * protocol call sequences (process history, judged call by call): bound diff/patch methods taken from two live
+   protocols in every order before being called, nested and chained diff/patch expressions, A->B, B->A, A->B on the
+   same objects, short-lived protocols built, listed and dropped one after another.
+ * every protocol-level case runs against the Protocol class as imported by the process AND against a second copy of
+   pytezos.protocol.protocol executed in the mode pytezos is in under pytest / unittest / IPython (the inline-docstring
+   descriptors of pytezos.jupyter then stand between the caller and Protocol.diff / Protocol.patch).
 """
 from __future__ import annotations
 
@@ -18,29 +27,48 @@ from mc.engine.report import Result
 
 ID = 'C30'
 LEVEL = 'exploration'
-RULE = ('every ordered pair of texts x every context size, and every ordered pair of small protocols x context size; '
+RULE = ('every ordered pair of texts x every context size; long texts x every one-range / two-line edit x context; every '
+        'ordered pair of small protocols x context size x {plain, test-runner} class mode; every call sequence of the '
+        'sequence alphabet x ordered protocol pair x mode; '
         'non-trivial = distinct non-empty patch skeletons (hunk headers + sign of every patch line + no-EOL markers, '
-        'line contents abstracted) for texts, and distinct (A files, B files) with A != B for protocols')
+        'line contents abstracted) for texts, distinct (mode, A files, B files) with A != B for protocol pairs and '
+        'distinct (mode, script, A files, B files) with A != B for call sequences')
 BOUND = {
     'quick': 'texts: <=4 lines over {a,b,c,""} +- trailing newline (all ordered pairs) x context 0..3; extended alphabet '
-             '{a,b,-x,+x,@x,\\x,x\\ry,x\\r,formfeed} <=2 lines x context 0..3; protocols: 0..2 files from {a.ml,a.mli,b.ml} '
-             '(both orders) over 4 texts, all ordered pairs x context {0,3}',
+             '{a,b,-x,+x,--x,++x,@x,\\x,x\\ry,x\\r,formfeed} <=2 lines x context 0..3; long texts: 12 lines (distinct / '
+             '3-periodic) x every replacement of a line range [i,j) by 0,1,2,11 lines and every two single-line '
+             'replace/delete/insert edits x 4 trailing-newline combinations x context {0,1,2,3,12}; 102 lines: a single-line '
+             'edit at every position and two edits at positions around 1,10,100 x context {0,1,3}; 1002 lines: edits at '
+             'positions around 1,10,100,1000 x context {0,3}; protocols: 0..2 files from {a.ml,a.mli,b.ml} '
+             '(both orders) over 4 texts, all ordered pairs x context {0,3} x 2 class modes; call sequences: 28 scripts '
+             '(24 fetch orders of A.diff,B.diff,A.patch,B.patch; nested; chained; A-B-A; rebuild) x all ordered pairs of 66 '
+             'protocols (0..2 files over 5 texts) x context {0,3} x 2 class modes',
     'thorough': 'texts: <=5 lines over {a,b,c,""} +- trailing newline x context 0..4; extended alphabet <=3 lines x context 0..3 '
-                '(a context >= the number of lines covers the whole text); '
-                'protocols: 0..3 files over 4 texts, all ordered pairs x context 0..3',
+                '(a context >= the number of lines covers the whole text); long texts: 12 and 25 lines in full (context 0..4 and '
+                'whole text), 102 lines (both line patterns) single edits everywhere + pairs at decimal boundaries x context 0..3, '
+                '1002 lines at decimal boundaries x context {0,1,3}; '
+                'protocols: 0..3 files over 4 texts, all ordered pairs x context 0..3 x 2 class modes; call sequences: 28 scripts x '
+                'all ordered pairs of 66 protocols x context 0..3 x 2 class modes',
 }
 ASSUMPTIONS = [
     'round trip is judged on str equality of whole texts; the patch format itself is not judged',
     '"reproduces the second protocol" is judged on the set of (file name, text) pairs; component order and hash are '
     'recorded as outcomes but not judged',
+    'a protocol IS the files it was built from (files_to_proto); that a Protocol object lists exactly these files is checked '
+    'first, because every other protocol-level verdict reads its result through that listing',
+    'the test-runner mode is produced by executing a second copy of pytezos/protocol/protocol.py after `import unittest` '
+    'and a reset of the is_interactive() memo, which is what happens when pytezos is first imported under pytest',
 ]
 LEVEL_TEXT = ('exhaustive over all pairs of small texts incl. every trailing-newline combination and patch-syntax look-alike '
-              'lines; all diff hunks shapes up to 5 lines are covered, longer texts only through the same code paths')
+              'lines; all diff hunk shapes up to 5 lines are covered, multi-digit hunk headers through systematic edits of '
+              '12..1002-line texts; protocol objects are driven through every short call history of the sequence alphabet in '
+              'both class modes; longer histories and other texts only through the same code paths')
 
 BASE = ['a', 'b', 'c', '']
 EXT = ['a', 'b', '-x', '+x', '--x', '++x', '@x', '\\x', 'x\ry', 'x\r', 'p\x0cq']   # '--x' / '++x': a removed / added line that looks like a file header in the patch
 NAMES = ['a.ml', 'a.mli', 'b.ml']
 PTEXTS = ['a\nb\nc\n', 'a\nx\nc\n', 'a\nb', '']
+MODES = ['plain', 'runner']
 
 _texts_cache = {}
 
@@ -74,26 +102,30 @@ def skeleton(patch):
     return '|'.join(l if l.startswith('@@') else l[:1] for l in ls)
 
 
+def _show(t):
+    return repr(t) if len(t) <= 400 else f'{t[:150]!r}...({len(t)} chars, {t.count(chr(10))} newlines)...{t[-150:]!r}'
+
+
 def text_check(a, b, ctx):
     """-> (outcome label, skeleton or None, [(descriptor, detail)])"""
     from pytezos.protocol.diff import apply_patch, make_patch
     try:
         p = make_patch(a, b, 'f.ml', ctx)
     except Exception as e:
-        return 'make_patch raises', None, [(f'make_patch raises {type(e).__name__}', f'a={a!r} b={b!r} ctx={ctx}: {e}')]
+        return 'make_patch raises', None, [(f'make_patch raises {type(e).__name__}', f'a={_show(a)} b={_show(b)} ctx={ctx}: {e}')]
     vs = []
     try:
         fwd = apply_patch(a, p)
         if fwd != b:
-            vs.append(('apply_patch(a, make_patch(a,b)) != b', f'a={a!r} b={b!r} ctx={ctx} patch={p!r} got={fwd!r}'))
+            vs.append(('apply_patch(a, make_patch(a,b)) != b', f'a={_show(a)} b={_show(b)} ctx={ctx} patch={_show(p)} got={_show(fwd)}'))
     except Exception as e:
-        vs.append((f'apply_patch raises {type(e).__name__}', f'a={a!r} b={b!r} ctx={ctx} patch={p!r}: {e}'))
+        vs.append((f'apply_patch raises {type(e).__name__}', f'a={_show(a)} b={_show(b)} ctx={ctx} patch={_show(p)}: {e}'))
     try:
         rev = apply_patch(b, p, revert=True)
         if rev != a:
-            vs.append(('apply_patch(b, patch, revert=True) != a', f'a={a!r} b={b!r} ctx={ctx} patch={p!r} got={rev!r}'))
+            vs.append(('apply_patch(b, patch, revert=True) != a', f'a={_show(a)} b={_show(b)} ctx={ctx} patch={_show(p)} got={_show(rev)}'))
     except Exception as e:
-        vs.append((f'apply_patch revert raises {type(e).__name__}', f'a={a!r} b={b!r} ctx={ctx} patch={p!r}: {e}'))
+        vs.append((f'apply_patch revert raises {type(e).__name__}', f'a={_show(a)} b={_show(b)} ctx={ctx} patch={_show(p)}: {e}'))
     if not p:
         label = 'identical texts, empty patch' if a == b else 'DIFFERENT texts, empty patch'
         return label, None, vs
@@ -125,7 +157,116 @@ def run_text_shard(alpha, maxn, ctxs, k, nshards, r):
         r.sample(case)
 
 
+# ---------------------------------------------------------------- long texts (multi-digit hunk headers)
+def long_plan(tier):
+    """-> list of (lines L, line pattern, 'full' | 'edges', contexts).
+    full: every range replacement and every pair of single-line edits; edges: single-line edits at every position (L <= 200)
+    or at the decimal boundaries (larger L), pairs of single-line edits at the decimal boundaries."""
+    if tier == 'quick':
+        return [(12, 'uniq', 'full', [0, 1, 2, 3, 12]), (12, 'cyc', 'full', [0, 1, 2, 3, 12]),
+                (102, 'uniq', 'edges', [0, 1, 3]), (1002, 'uniq', 'edges', [0, 3])]
+    return [(12, 'uniq', 'full', [0, 1, 2, 3, 4, 12]), (12, 'cyc', 'full', [0, 1, 2, 3, 4, 12]),
+            (25, 'uniq', 'full', [0, 1, 2, 3, 4, 25]), (25, 'cyc', 'full', [0, 1, 2, 3, 4, 25]),
+            (102, 'uniq', 'edges', [0, 1, 2, 3]), (102, 'cyc', 'edges', [0, 1, 2, 3]),
+            (1002, 'uniq', 'edges', [0, 1, 3])]
+
+
+def boundary_positions(L):
+    """0-based line indices next to every power of ten (so that the 1-based header numbers 9,10,11, 99,100,101 ... occur) and both ends"""
+    ps = {0, 1, L - 2, L - 1}
+    p = 10
+    while p <= L:
+        ps |= {p - 2, p - 1, p}
+        p *= 10
+    return sorted(x for x in ps if 0 <= x < L)
+
+
+def long_edits(L, how):
+    """-> list of edit scripts; a script is a list of non-overlapping (i, j, m): lines [i, j) are replaced by m new lines"""
+    out = []
+    if how == 'full':
+        for i in range(L + 1):
+            for j in range(i, L + 1):
+                for m in sorted({0, 1, 2, L - 1}):
+                    if i < j or m:
+                        out.append([(i, j, m)])
+        pos = list(range(L))
+    else:
+        pos = boundary_positions(L)
+        single = list(range(L)) if L <= 200 else pos
+        for p in single:
+            out += [[(p, p + 1, 1)], [(p, p + 1, 0)], [(p, p, 1)]]
+        out.append([(L, L, 1)])
+    ops = [lambda p: (p, p + 1, 1), lambda p: (p, p + 1, 0), lambda p: (p, p, 1)]   # replace, delete, insert before
+    for p, q in itertools.combinations(pos, 2):
+        for o1 in ops:
+            for o2 in ops:
+                out.append([o1(p), o2(q)])
+    return out
+
+
+def long_texts(L, pattern, script, a_nl, b_nl):
+    old = [f'l{i + 1}' for i in range(L)] if pattern == 'uniq' else ['abc'[i % 3] for i in range(L)]
+    new = list(old)
+    for i, j, m in reversed(script):
+        new[i:j] = [(f'n{i + 1}.{x}' if pattern == 'uniq' else 'x') for x in range(m)]
+    a = '\n'.join(old) + ('\n' if a_nl and old else '')
+    b = '\n'.join(new) + ('\n' if b_nl and new else '')
+    return a, b
+
+
+def run_long_shard(L, pattern, how, ctxs, k, nshards, r):
+    E = long_edits(L, how)
+    case = None
+    for idx in range(k, len(E), nshards):
+        script = E[idx]
+        for a_nl in (True, False):
+            for b_nl in (True, False):
+                a, b = long_texts(L, pattern, script, a_nl, b_nl)
+                for ctx in ctxs:
+                    r.ev()
+                    label, sk, vs = text_check(a, b, ctx)
+                    r.out(f'long/{L} lines {pattern}: {label}')
+                    if sk is not None:
+                        r.nt(sk)
+                    case = {'kind': 'text', 'a': a, 'b': b, 'ctx': ctx}
+                    for d, detail in vs:
+                        r.viol(d, case, detail)
+    if case:
+        r.sample(case)
+
+
 # ---------------------------------------------------------------- protocol level
+_mods = {}
+
+
+def protocol_module(mode):
+    """'plain': pytezos.protocol.protocol as the process imported it.  'runner': a second copy of the same source file executed
+    while pytezos.jupyter.is_interactive() answers True, the way it does when pytezos is imported under pytest / unittest /
+    IPython: the public methods of Protocol are then wrapped by the inline-docstring descriptors.  -> (module, wrapped?)"""
+    if mode not in _mods:
+        import inspect
+        import pytezos.protocol.protocol as real
+        if mode == 'plain':
+            m = real
+        else:
+            import importlib.util
+            import unittest  # noqa: F401  what is_interactive() looks for in sys.modules
+            import pytezos.jupyter as jup
+            clear = getattr(getattr(jup, 'is_interactive', None), 'cache_clear', None)
+            if clear:
+                clear()
+            spec = importlib.util.spec_from_file_location('pytezos.protocol.protocol_as_under_a_test_runner', real.__file__)
+            m = importlib.util.module_from_spec(spec)
+            spec.loader.exec_module(m)
+        _mods[mode] = (m, not inspect.isfunction(m.Protocol.__dict__.get('diff')))
+    return _mods[mode]
+
+
+def mode_label(mode):
+    return f'{mode}{"/wrapped methods" if protocol_module(mode)[1] else "/bare methods"}'
+
+
 def protocols(tier):
     maxf = 2 if tier == 'quick' else 3
     out = [[]]
@@ -136,55 +277,116 @@ def protocols(tier):
     return out
 
 
-def proto_check(fa, fb, ctx):
+BUILT = 'a Protocol built from files does not list those files'
+FWD = 'A.patch(A.diff(B)) does not have B\'s files'
+HAND = 'A.patch(hand-made diff protocol) does not have B\'s files'
+STORED = 'diff/patch methods taken from two protocols before being called: a result does not have the target\'s files'
+NESTED = 'A.patch(B.patch(B.diff(A)).diff(B)) does not have B\'s files'
+CHAIN = 'A.patch(A.diff(B)).patch(B.diff(A)) does not have A\'s files'
+ABA = 'round trips A->B, B->A, A->B on the same two objects: a result does not have the target\'s files'
+REBUILD = 'short-lived protocols: build(A).patch(build(A).diff(build(B))) does not have B\'s files'
+
+
+class _Tools:
+    """the few observations and calls every protocol-level script is made of; failures are collected, never raised"""
+
+    def __init__(self, mode, fa, fb, ctx, what):
+        self.m = protocol_module(mode)[0]
+        self.ctx = ctx
+        self.vs = []
+        self.info = f'mode={mode} A={fa} B={fb} ctx={ctx} {what}'
+
+    def build(self, files):
+        return self.m.Protocol(self.m.files_to_proto(files))
+
+    def has(self, obj, files, desc, step=''):
+        """observation: obj lists exactly `files` (as a set of (name, text) pairs); None (an earlier call failed) is skipped"""
+        if obj is None:
+            return False
+        try:
+            got = list(obj)
+        except Exception as e:
+            self.vs.append((f'listing the files of a Protocol raises {type(e).__name__}', f'{self.info} {step}: {e}'))
+            return False
+        try:
+            same = dict(got) == dict(files) and len(got) == len(files)
+        except Exception:
+            same = False
+        if not same:
+            self.vs.append((desc, f'{self.info} {step} want={list(files)} got={got}'))
+        return same
+
+    def diff(self, method, other, step=''):
+        if method is None or other is None:
+            return None
+        try:
+            return method(other, context_size=self.ctx)
+        except Exception as e:
+            self.vs.append((f'Protocol.diff raises {type(e).__name__} for two Protocol instances', f'{self.info} {step}: {e}'))
+            return None
+
+    def patch(self, method, d, step=''):
+        if method is None or d is None:
+            return None
+        try:
+            return method(d)
+        except Exception as e:
+            self.vs.append((f'Protocol.patch raises {type(e).__name__} for a Protocol instance', f'{self.info} {step}: {e}'))
+            return None
+
+    def get(self, obj, name):
+        try:
+            return getattr(obj, name)
+        except Exception as e:
+            self.vs.append((f'looking up Protocol.{name} raises {type(e).__name__}', f'{self.info}: {e}'))
+            return None
+
+
+def proto_check(fa, fb, ctx, mode='plain'):
     """-> (label, [(descriptor, detail)])"""
     from pytezos.protocol.diff import make_patch
-    from pytezos.protocol.protocol import Protocol, files_to_proto
     fa = [tuple(x) for x in fa]
     fb = [tuple(x) for x in fb]
-    A = Protocol(files_to_proto(fa))
-    B = Protocol(files_to_proto(fb))
-    want = dict(fb)
-    vs = []
-    if dict(iter(B)) != want:   # harness sanity: the protocol object reports the files it was built from
-        raise AssertionError(f'Protocol does not report its own files: {fb} -> {list(B)}')
-    yours = dict(fa)
-    hand = Protocol(files_to_proto([(n, make_patch(yours.get(n, ''), t, n, ctx)) for n, t in fb]))
+    t = _Tools(mode, fa, fb, ctx, '')
+    try:
+        A = t.build(fa)
+        B = t.build(fb)
+    except Exception as e:
+        return 'building a Protocol RAISES', [(f'Protocol(files_to_proto(files)) raises {type(e).__name__}', f'{t.info}: {e}')]
     label = []
+    if not (t.has(A, fa, BUILT, 'A') & t.has(B, fb, BUILT, 'B')):
+        label.append('OWN FILES NOT LISTED')
+    yours = dict(fa)
+    try:
+        hand = t.build([(n, make_patch(yours.get(n, ''), x, n, ctx)) for n, x in fb])
+    except Exception as e:
+        t.vs.append((f'make_patch raises {type(e).__name__}', f'{t.info}: {e}'))
+        hand = None
     for how in ('diff', 'hand'):
         if how == 'diff':
-            try:
-                D = A.diff(B, context_size=ctx)
-            except Exception as e:
-                vs.append((f'Protocol.diff raises {type(e).__name__} for two Protocol instances',
-                           f'A={fa} B={fb} ctx={ctx}: {e}'))
+            D = t.diff(t.get(A, 'diff'), B)
+            if D is None:
                 label.append('diff RAISES')
                 continue
         else:
             D = hand
-        try:
-            R = A.patch(D)
-        except Exception as e:
-            vs.append((f'Protocol.patch raises {type(e).__name__} for a Protocol instance',
-                       f'A={fa} B={fb} ctx={ctx} (patch from {how}): {e}'))
+        R = t.patch(t.get(A, 'patch'), D, f'(patch from {how})')
+        if R is None:
             label.append(f'patch({how}) RAISES')
-            continue
-        got = list(R)
-        if dict(got) != want or len(got) != len(want):
-            vs.append((('A.patch(A.diff(B)) does not have B\'s files' if how == 'diff'
-                        else 'A.patch(hand-made diff protocol) does not have B\'s files'),
-                       f'A={fa} B={fb} ctx={ctx} got={got}'))
+        elif not t.has(R, fb, FWD if how == 'diff' else HAND):
             label.append(f'patch({how}) WRONG FILES')
         else:
-            same_hash = R.hash() == B.hash()
-            label.append(f'patch({how}) ok, hash {"same" if same_hash else "differs"}')
-    # de-duplicate (both routes may fail the same way only with different descriptors, keep all)
+            try:
+                same_hash = R.hash() == B.hash()
+            except Exception:
+                same_hash = None
+            label.append(f'patch({how}) ok, hash {"same" if same_hash else "differs" if same_hash is False else "raises"}')
     na, nb = len(fa), len(fb)
-    shared = len(set(dict(fa)) & set(want))
-    return f'proto {na}->{nb} files, {shared} shared: ' + '; '.join(label), vs
+    shared = len(set(dict(fa)) & set(dict(fb)))
+    return f'proto[{mode_label(mode)}] {na}->{nb} files, {shared} shared: ' + '; '.join(label), t.vs
 
 
-def run_proto_shard(tier, k, nshards, r):
+def run_proto_shard(tier, mode, k, nshards, r):
     P = protocols(tier)
     ctxs = [0, 3] if tier == 'quick' else [0, 1, 2, 3]
     case = None
@@ -193,13 +395,123 @@ def run_proto_shard(tier, k, nshards, r):
         for fb in P:
             for ctx in ctxs:
                 r.ev()
-                label, vs = proto_check(fa, fb, ctx)
+                label, vs = proto_check(fa, fb, ctx, mode)
                 r.out(label)
                 if fa != fb:
-                    r.nt(('proto', repr(fa), repr(fb)))
-                case = {'kind': 'proto', 'A': fa, 'B': fb, 'ctx': ctx}
+                    r.nt(('proto', mode, repr(fa), repr(fb)))
+                case = {'kind': 'proto', 'A': fa, 'B': fb, 'ctx': ctx, 'mode': mode}
                 for d, detail in vs:
                     r.viol(d, case, detail)
+    if case:
+        r.sample(case)
+
+
+# ---------------------------------------------------------------- protocol call sequences (process history)
+STEXTS = ['a\nb\nc\n', 'a\nx\nc\n', 'x\na\nb\nc\n', 'a\nb', '']     # differences at different line positions
+FETCH = ['dA', 'dB', 'pA', 'pB']
+SCRIPTS = ['fetch:' + ','.join(p) for p in itertools.permutations(FETCH)] + ['nested', 'chain', 'aba', 'rebuild']
+
+_seq_cache = []
+
+
+def seq_protocols():
+    if not _seq_cache:
+        out = [[]]
+        for nm in NAMES:
+            out += [[[nm, x]] for x in STEXTS]
+        for names in (('a.mli', 'a.ml'), ('a.ml', 'b.ml')):
+            for x, y in itertools.product(STEXTS, repeat=2):
+                out.append([[names[0], x], [names[1], y]])
+        _seq_cache.extend(out)
+    return _seq_cache
+
+
+def seq_check(mode, fa, fb, ctx, script):
+    """One call history on protocol objects, every result judged against the files the target was built from.
+    -> (label, [(descriptor, detail)])"""
+    fa = [tuple(x) for x in fa]
+    fb = [tuple(x) for x in fb]
+    t = _Tools(mode, fa, fb, ctx, f'script={script}')
+    ctxkw = {'context_size': ctx}
+    try:
+        A = t.build(fa)
+        B = t.build(fb)
+    except Exception as e:
+        return 'building a Protocol RAISES', [(f'Protocol(files_to_proto(files)) raises {type(e).__name__}', f'{t.info}: {e}')]
+    t.has(A, fa, BUILT, 'A')
+    t.has(B, fb, BUILT, 'B')
+    if script.startswith('fetch:'):
+        # the four bound methods are looked up in the given order, all of them before the first call
+        where = {'dA': (A, 'diff'), 'dB': (B, 'diff'), 'pA': (A, 'patch'), 'pB': (B, 'patch')}
+        bound = {}
+        for nm in script[6:].split(','):
+            bound[nm] = t.get(*where[nm])
+        d_ab = t.diff(bound['dA'], B, 'dA(B)')
+        t.has(t.patch(bound['pA'], d_ab, 'pA(dA(B))'), fb, STORED, 'pA(dA(B))')
+        d_ba = t.diff(bound['dB'], A, 'dB(A)')
+        t.has(t.patch(bound['pB'], d_ba, 'pB(dB(A))'), fa, STORED, 'pB(dB(A))')
+        # a stored diff result applied through a freshly looked-up method, and a fresh diff through a stored patch method
+        t.has(t.patch(t.get(A, 'patch'), d_ab, 'A.patch(dA(B))'), fb, STORED, 'A.patch(dA(B))')
+        t.has(t.patch(bound['pB'], t.diff(t.get(B, 'diff'), A, 'B.diff(A)'), 'pB(B.diff(A))'), fa, STORED, 'pB(B.diff(A))')
+    elif script == 'nested':
+        try:
+            R = A.patch(B.patch(B.diff(A, **ctxkw)).diff(B, **ctxkw))
+        except Exception as e:
+            t.vs.append((f'A.patch(B.patch(B.diff(A)).diff(B)) raises {type(e).__name__}', f'{t.info}: {e}'))
+            R = None
+        t.has(R, fb, NESTED)
+    elif script == 'chain':
+        try:
+            R = A.patch(A.diff(B, **ctxkw)).patch(B.diff(A, **ctxkw))
+        except Exception as e:
+            t.vs.append((f'A.patch(A.diff(B)).patch(B.diff(A)) raises {type(e).__name__}', f'{t.info}: {e}'))
+            R = None
+        t.has(R, fa, CHAIN)
+    elif script == 'aba':
+        r1 = t.patch(t.get(A, 'patch'), t.diff(t.get(A, 'diff'), B, '1:A.diff(B)'), '1:A.patch')
+        t.has(r1, fb, ABA, 'step 1')
+        r2 = t.patch(t.get(B, 'patch'), t.diff(t.get(B, 'diff'), A, '2:B.diff(A)'), '2:B.patch')
+        t.has(r2, fa, ABA, 'step 2')
+        r3 = t.patch(t.get(A, 'patch'), t.diff(t.get(A, 'diff'), B, '3:A.diff(B)'), '3:A.patch')
+        t.has(r3, fb, ABA, 'step 3')
+        t.has(r1, fb, ABA, 'step 1 result listed again after steps 2 and 3')
+    elif script == 'rebuild':
+        # nothing is kept alive: every protocol is a temporary that is dropped as soon as it has been used
+        del A, B
+        for files, nm in ((fa, 'A'), (fb, 'B'), (fa, 'A again'), (fb, 'B again')):
+            try:
+                t.has(t.build(files), files, BUILT, f'temporary {nm}')
+            except Exception as e:
+                t.vs.append((f'Protocol(files_to_proto(files)) raises {type(e).__name__}', f'{t.info}: {e}'))
+        try:
+            R = t.build(fa).patch(t.build(fa).diff(t.build(fb), **ctxkw))
+        except Exception as e:
+            t.vs.append((f'build(A).patch(build(A).diff(build(B))) raises {type(e).__name__}', f'{t.info}: {e}'))
+            R = None
+        t.has(R, fb, REBUILD)
+    else:
+        raise ValueError(script)
+    kind = script.split(':')[0]
+    return f'seq[{mode_label(mode)}] {kind}: {"all results as expected" if not t.vs else "WRONG"}', t.vs
+
+
+def run_seq_shard(tier, mode, k, nshards, r):
+    P = seq_protocols()
+    ctxs = [0, 3] if tier == 'quick' else [0, 1, 2, 3]
+    case = None
+    for i in range(k, len(P), nshards):
+        fa = P[i]
+        for fb in P:
+            for script in SCRIPTS:
+                for ctx in ctxs:
+                    r.ev()
+                    label, vs = seq_check(mode, fa, fb, ctx, script)
+                    r.out(label)
+                    if fa != fb:
+                        r.nt(('seq', mode, script, repr(fa), repr(fb)))
+                    case = {'kind': 'seq', 'mode': mode, 'A': fa, 'B': fb, 'ctx': ctx, 'script': script}
+                    for d, detail in vs:
+                        r.viol(d, case, detail)
     if case:
         r.sample(case)
 
@@ -210,7 +522,11 @@ def shards(tier, seed):
     for alpha, maxn, ctxs in plan(tier):
         n = 64 if tier == 'thorough' else 16
         out += [('text', alpha, maxn, ctxs, k, n) for k in range(n)]
-    out += [('proto', k, 16) for k in range(16)]
+    for L, pattern, how, ctxs in long_plan(tier):
+        out += [('long', L, pattern, how, ctxs, k, 16) for k in range(16)]
+    for mode in MODES:
+        out += [('proto', mode, k, 16) for k in range(16)]
+        out += [('seq', mode, k, 16) for k in range(16)]
     return out
 
 
@@ -219,22 +535,59 @@ def run_shard(spec, tier):
     if spec[0] == 'text':
         _, alpha, maxn, ctxs, k, n = spec
         run_text_shard(alpha, maxn, ctxs, k, n, r)
+    elif spec[0] == 'long':
+        _, L, pattern, how, ctxs, k, n = spec
+        run_long_shard(L, pattern, how, ctxs, k, n, r)
+    elif spec[0] == 'proto':
+        _, mode, k, n = spec
+        run_proto_shard(tier, mode, k, n, r)
     else:
-        _, k, n = spec
-        run_proto_shard(tier, k, n, r)
+        _, mode, k, n = spec
+        run_seq_shard(tier, mode, k, n, r)
     return r
 
 
 def replay(case):
     if case['kind'] == 'text':
         return text_check(case['a'], case['b'], case['ctx'])[2]
-    return proto_check(case['A'], case['B'], case['ctx'])[1]
+    if case['kind'] == 'seq':
+        return seq_check(case['mode'], case['A'], case['B'], case['ctx'], case['script'])[1]
+    return proto_check(case['A'], case['B'], case['ctx'], case.get('mode', 'plain'))[1]
 
 
-def observe(case):
+def _observe(case):
     if case['kind'] == 'text':
         from pytezos.protocol.diff import apply_patch, make_patch
         p = make_patch(case['a'], case['b'], 'f.ml', case['ctx'])
         return [p, apply_patch(case['a'], p), apply_patch(case['b'], p, revert=True)]
-    label, vs = proto_check(case['A'], case['B'], case['ctx'])
+    if case['kind'] == 'seq':
+        label, vs = seq_check(case['mode'], case['A'], case['B'], case['ctx'], case['script'])
+    else:
+        label, vs = proto_check(case['A'], case['B'], case['ctx'], case.get('mode', 'plain'))
     return [label, [d for d, _ in vs]]
+
+
+def observe(case):
+    """The observation is computed in a forked child, so that every observation starts from the same process state: whether the
+    code under test carries state from one call to the next is judged by the call sequences, not by this harness self-check
+    (which is there to catch a harness that depends on hash order, time or randomness)."""
+    import json
+    import os
+    rfd, wfd = os.pipe()
+    pid = os.fork()
+    if pid == 0:
+        try:
+            os.close(rfd)
+            try:
+                out = {'ok': _observe(case)}
+            except BaseException as e:   # noqa: B036  reported to the parent as the observation
+                out = {'raised': f'{type(e).__name__}: {e}'}
+            with os.fdopen(wfd, 'w') as f:
+                json.dump(out, f)
+        finally:
+            os._exit(0)
+    os.close(wfd)
+    with os.fdopen(rfd) as f:
+        data = f.read()
+    os.waitpid(pid, 0)
+    return json.loads(data) if data else {'raised': 'no observation came back from the child process'}
